@@ -317,7 +317,7 @@ func Run(c *hx.Ctx) {
 		}
 	}
 	// 2. every permutation of the replies for N <= 5 (thorough: 6), plain and with a duplicate / unknown / reset
-	maxN := c.N(4, 6)
+	maxN := c.N(5, 7)
 	for n := 1; n <= maxN; n++ {
 		for pi, p := range perms(n) {
 			var ops []string
@@ -340,7 +340,7 @@ func Run(c *hx.Ctx) {
 		}
 	}
 	// 3. random scripts, up to 64 streams, counter pre-set around the wrap points
-	for i := 0; i < c.N(300, 4000); i++ {
+	for i := 0; i < c.N(1000, 6000); i++ {
 		base := bases[rng.Intn(len(bases))]
 		if rng.Chance(30) {
 			base = uint64(1<<32) - uint64(rng.Intn(70))
